@@ -768,3 +768,77 @@ def rejecting(deferred=True, times=1, kind="fifo", capacity=2, pending=0, existi
   sc.info = {"capacity": capacity, "existing": existing, "deferred": deferred, "times": times, "kind": kind, "pending": pending, "old_flags": [f.name for f in old_flags],
              "thread_created_on_translated_path": bool(spawned_programs)}
   return sc
+
+
+# ---- fabric: subscribe / publish against the delivery threads (C06, C08 under every interleaving) --------------------------------------
+FABRIC_SCRIPTS = {
+  # (call, args...): sub(queue, signal, kind) / pub(event index)
+  "late-subscriber": [("sub", 0, "A", "fifo"), ("pub", 0), ("sub", 1, "A", "fifo"), ("pub", 1), ("pub", 2)],
+  "resubscribe": [("sub", 0, "A", "fifo"), ("sub", 1, "A", "fifo"), ("sub", 0, "A", "fifo"), ("pub", 0), ("pub", 1)],
+  "two-kinds": [("sub", 0, "A", "fifo"), ("sub", 1, "A", "lifo"), ("pub", 0), ("sub", 0, "A", "lifo"), ("pub", 1)],
+  "priorities": [("sub", 0, "A", "fifo"), ("pub", 3), ("pub", 0), ("pub", 1)],
+}
+# events: index -> (signal, priority); event 2 has a signal nobody subscribes to; event 3 has a lower priority number (more urgent is smaller)
+FABRIC_EVENTS = [("A", 5), ("A", 5), ("B", 5), ("A", 9)]
+
+
+def fabric_delivery(script="late-subscriber", kinds=("fifo",)):
+  """thread 0 runs a script of subscribe/publish calls on the real ActiveFabricSource; the delivery threads of `kinds` run the real
+  thread_runner_fifo / thread_runner_lifo.  Subscriber queues are plain deques."""
+  import miros.activeobject as ao
+  sc = Scenario("fabric_delivery")
+  signals_ns(sc)
+  steps = FABRIC_SCRIPTS[script]
+  EV = RecordClass("event", ["signal", "signal_name"])
+  FE = RecordClass("FabricEvent", ["event", "priority"])
+  sc.record_pyclass["event"] = ao.HsmEvent
+  names = {"A": sc.strings.code("A"), "B": sc.strings.code("B")}
+  events = [EV.new(signal=SK(11 + i, 11 + i), signal_name=SK(names[sg], sg)) for i, (sg, _p) in enumerate(FABRIC_EVENTS)]
+  # an event used only to name a signal in subscribe()
+  sub_ev = {sg: EV.new(signal=SK(20, 20), signal_name=SK(code, sg)) for sg, code in names.items()}
+  fes = [FE.new(event=events[i], priority=SK(p, p)) for i, (_sg, p) in enumerate(FABRIC_EVENTS)]
+  prio = {fe.rid: FABRIC_EVENTS[i][1] for i, fe in enumerate(fes)}
+  run_event = sc.add(M.MEvent("fabric_event", 1))
+  qf = sc.add(M.MItemQueue("fifo_queue", 4, prio))
+  ql = sc.add(M.MItemQueue("lifo_queue", 4, prio))
+  sc.elem_typ["fifo_queue"] = sc.elem_typ["lifo_queue"] = ("rec", FE)
+  lists = sc.add(M.MLists("registries", 4, 3))
+  sc.elem_typ["registries"] = ("obj", "deque")
+  subs_f = sc.add(M.MDict("fifo_subscriptions", 2))
+  subs_l = sc.add(M.MDict("lifo_subscriptions", 2))
+  for d in (subs_f, subs_l):
+    sc.elem_typ[d.name] = "str"
+    sc.value_typ[d.name] = ("listref", lists)
+  queues = [sc.add(M.MDeque("q%d" % i, 4)) for i in range(2)]
+  for q in queues:
+    sc.elem_typ[q.name] = ("rec", EV)
+  fabric = PyObj(ao.ActiveFabricSource, {"fabric_task_event": run_event, "fifo_fabric_queue": qf, "lifo_fabric_queue": ql,
+                                        "fifo_subscriptions": subs_f, "lifo_subscriptions": subs_l}, "fabric")
+  counter = [0]
+
+  def new_fe(comp, args, kwargs):
+    ev_, pr = args[0], args[1]
+    if not isinstance(ev_, SRec) or not isinstance(pr, SK):
+      raise TranslationError("FabricEvent(...) with arguments that are not static in the scenario")
+    return FE.intern(event=ev_, priority=pr)
+  sc.class_intrinsics.append((ao.FabricEvent, new_fe))
+  body = "def caller(fabric, q0, q1, A, B, e0, e1, e2, e3):\n"
+  for stp in steps:
+    if stp[0] == "sub":
+      body += "  fabric.subscribe(q%d, %s, %r)\n" % (stp[1], stp[2], stp[3])
+    else:
+      body += "  fabric.publish(e%d, priority=%d)\n" % (stp[1], FABRIC_EVENTS[stp[1]][1])
+  c = Compiler(sc, 0, "caller")
+  c.call_function(SF(node=driver(body, "caller"), closure={}, qualname="scenario.caller", globs={}),
+                  [SP(fabric), SO(queues[0]), SO(queues[1]), sub_ev["A"], sub_ev["B"]] + events, {})
+  sc.programs.append(c.finish())
+  tid = 1
+  for kind in kinds:
+    c = Compiler(sc, tid, "%s-delivery" % kind)
+    fn = ao.ActiveFabricSource.thread_runner_fifo if kind == "fifo" else ao.ActiveFabricSource.thread_runner_lifo
+    c.call_function(SF(fn=fn, self_val=SP(fabric), defcls=ao.ActiveFabricSource),
+                    [SO(run_event), SO(qf if kind == "fifo" else ql), SO(subs_f if kind == "fifo" else subs_l)], {})
+    sc.programs.append(c.finish())
+    tid += 1
+  sc.info = {"script": script, "steps": [list(x) for x in steps], "kinds": list(kinds), "events": [e.rid for e in events]}
+  return sc
